@@ -184,6 +184,9 @@ fn history_case(rng: &mut Rng, rec: &mut Rec) {
         rec.cov(&format!("edge/{}->{}", w[0], w[1]));
         rec.cov(&format!("edge-config/{}->{}/{}", w[0], w[1], cfg_class));
     }
+    if ex.unsolicited_100 > 0 {
+        rec.cov("server/unsolicited-100");
+    }
     let total_steps = d.steps;
     // Redirect -> Prepare edge: follow the redirect and use the new flow
     if truth.terminal == "Redirect" {
@@ -277,8 +280,8 @@ fn rejected_case(idx: u64, rec: &mut Rec) {
     let ver = VERS[take(5)];
     let method = METHODS[take(9)];
     let host = HOSTS[take(5)];
-    let cl = CLS[take(9)];
-    let te = TES[take(5)];
+    let cl = CLS[take(10)];
+    let te = TES[take(6)];
     let despite = take(2) == 1;
     let writes = take(3);
     let cfg = build(ver, method, host, cl, te, despite);
@@ -361,7 +364,7 @@ impl Property for P {
     fn workloads(&self, tier: Tier) -> Vec<Workload> {
         vec![
             Workload::new("histories", tier.pick(6_000, 1_500_000), false, "random exchange histories + advance probes at every step"),
-            Workload::new("request-menu", 5 * 9 * 5 * 9 * 5 * 2 * 3, true, "every request shape of the C17 product (valid and invalid) x 0/1/2 head writes, then an advance attempt"),
+            Workload::new("request-menu", 5 * 9 * 5 * 10 * 6 * 2 * 3, true, "every request shape of the C17 product (valid and invalid) x 0/1/2 head writes, then an advance attempt"),
         ]
     }
     fn run_case(&self, wl: &str, idx: u64, seed: u64, rec: &mut Rec) {
@@ -386,6 +389,7 @@ impl Property for P {
         v.push(("probe/Await100/advanced".into(), 20));
         v.push(("edge-config/SendRequest->SendBody/despite-body".into(), 5));
         v.push(("hook:flow:Await100:WithBody".into(), 10));
+        v.push(("server/unsolicited-100".into(), 20));
         v.push(("rejected-menu/writes=0/refused".into(), 100));
         v.push(("rejected-menu/writes=1/refused".into(), 100));
         v.push(("rejected-menu/writes=1/advanced".into(), 100));
